@@ -1,6 +1,7 @@
 package main
 
 import (
+	"bytes"
 	"fmt"
 	"sort"
 
@@ -246,11 +247,7 @@ func (g *gcase) txn(nOps int, mode int) {
 			}
 			if g.r.Chance(12) {
 				if h := g.handle(); h != "-" {
-					if g.zero {
-						g.out.P("%s %s %d %s z", op, hx.Hex(k), v, h)
-					} else {
-						g.out.P("%s %s %d %s", op, hx.Hex(k), v, h)
-					}
+					g.out.P("%s %s %d %s", op, hx.Hex(k), v, h)
 				} else {
 					g.out.P("%s %s %d", op, hx.Hex(k), v)
 				}
@@ -341,6 +338,243 @@ func (g *gcase) txn(nOps int, mode int) {
 	}
 }
 
+// finish ends the live txn: mostly CommitAndNotify / Commit+Notify on the main chain.
+func (g *gcase) finish(abandonPct int) {
+	fate := g.r.Intn(100)
+	switch {
+	case fate < abandonPct:
+		g.out.P("abandon")
+		g.out.P("chk")
+		return
+	case fate < abandonPct+(100-abandonPct)*2/3:
+		g.nver++
+		v := fmt.Sprintf("%d", g.nver)
+		g.out.P("cnotify %s", v)
+		g.versions = append(g.versions, v)
+		g.vkeys[v] = g.cur
+		g.head = v
+	default:
+		g.nver++
+		v := fmt.Sprintf("%d", g.nver)
+		g.out.P("commit %s", v)
+		g.out.P("chk")
+		g.out.P("notify")
+		g.versions = append(g.versions, v)
+		g.vkeys[v] = g.cur
+		g.head = v
+	}
+	g.out.P("chk")
+	g.cur = nil
+}
+
+func cat(parts ...[]byte) []byte {
+	var o []byte
+	for _, p := range parts {
+		o = append(o, p...)
+	}
+	return o
+}
+
+// deepCase: long keys sharing long prefixes: x^i y and x^i z for i = 0..D with D > 32, so that
+// every level of the path has larger siblings and LowerBound iterators carry more than 32 pending
+// edge sets; the retained iterators are read several times (All twice, Next, All again).
+func (g *gcase) deepCase() {
+	r := g.r
+	bs := []byte{byte(1 + r.Intn(80)), byte(90 + r.Intn(60)), byte(160 + r.Intn(90))}
+	x, y, z := bs[0:1], bs[1:2], bs[2:3]
+	if r.Chance(30) { // descend along the middle byte: smaller and larger siblings on every level
+		x, y = y, x
+	}
+	D := 33 + r.Intn(12)
+	xs := func(i int) []byte { return bytes.Repeat(x, i) }
+	var keys [][]byte
+	for i := 0; i <= D; i++ {
+		keys = append(keys, cat(xs(i), y), cat(xs(i), z))
+		if r.Chance(20) {
+			keys = append(keys, xs(i))
+		}
+	}
+	for i := len(keys) - 1; i > 0; i-- {
+		j := r.Intn(i + 1)
+		keys[i], keys[j] = keys[j], keys[i]
+	}
+	g.out.P("begin 0")
+	g.cur = map[string]bool{}
+	for i, k := range keys {
+		g.out.P("ins %s %d", hx.Hex(k), r.Intn(1000))
+		g.cur[string(k)] = true
+		if i == len(keys)/2 && r.Chance(50) {
+			g.out.P("lb t %s i1", hx.Hex(cat(xs(D/2+10), y)))
+			g.iters = append(g.iters, "i1")
+			g.out.P("rest i1")
+		}
+	}
+	g.finish(0)
+	deepIter := func(tg, name string) {
+		d := D - r.Intn(3)
+		probe := cat(xs(d), hx.Pick(r, [][]byte{x, y, z, {}}))
+		if r.Chance(20) {
+			probe = cat(xs(d), x, x)
+		}
+		g.out.P("lb %s %s %s", tg, hx.Hex(probe), name)
+		g.iters = append(g.iters, name)
+		g.out.P("rest %s", name)
+		g.out.P("rest %s", name)
+		for i, n := 0, r.Intn(4); i < n; i++ {
+			g.out.P("next %s", name)
+		}
+		g.out.P("rest %s", name)
+	}
+	deepIter("v"+g.head, "i2")
+	if r.Chance(50) {
+		g.out.P("pfx v%s %s - i3", g.head, hx.Hex(xs(D-5)))
+		g.iters = append(g.iters, "i3")
+		g.out.P("rest i3")
+		for i := 0; i < 8; i++ {
+			g.out.P("next i3")
+		}
+		g.out.P("rest i3")
+	}
+	g.out.P("pers")
+	// a second txn writing deep keys, with an iterator taken inside the txn
+	g.out.P("begin %s", g.head)
+	g.cur = cloneSet(g.vkeys[g.head])
+	for i, n := 0, 3+r.Intn(10); i < n; i++ {
+		k := cat(xs(r.Intn(D+2)), hx.Pick(r, [][]byte{y, z, {}}))
+		if r.Chance(50) {
+			g.out.P("del %s", hx.Hex(k))
+			delete(g.cur, string(k))
+		} else {
+			g.out.P("ins %s %d", hx.Hex(k), r.Intn(1000))
+			g.cur[string(k)] = true
+		}
+		if i == 2 {
+			deepIter("t", "i4")
+		}
+	}
+	g.finish(20)
+	g.out.P("pers")
+	g.out.P("rest i2")
+	g.out.P("next i2")
+	g.out.P("rest i2")
+}
+
+// prefixKeyCase: a key K that is a proper prefix of several keys sharing the next byte (K's node has a
+// leaf and a single inner child), usually with a sibling so that K's node is not the root; handles
+// (Get on present/absent keys below K, Prefix on every prefix of a key below K) are taken from the
+// committed tree; one txn deletes K and then writes below it.
+func (g *gcase) prefixKeyCase() {
+	r := g.r
+	pool := make([]byte, 0, 8)
+	for len(pool) < 8 {
+		b := byte(r.Intn(256))
+		dup := false
+		for _, c := range pool {
+			dup = dup || c == b
+		}
+		if !dup {
+			pool = append(pool, b)
+		}
+	}
+	pk := func() byte { return pool[r.Intn(len(pool))] }
+	K := make([]byte, r.Intn(4))
+	for i := range K {
+		K[i] = pk()
+	}
+	sep := []byte{pk()}
+	if r.Chance(30) {
+		sep = append(sep, pk())
+	}
+	var below [][]byte
+	for i, n := 0, 2+r.Intn(3); i < n; i++ {
+		k := cat(K, sep, []byte{pool[i]})
+		if r.Chance(25) {
+			k = append(k, pk())
+		}
+		below = append(below, k)
+	}
+	absent := cat(K, sep, []byte{pool[6]})
+	keys := append([][]byte{K}, below...)
+	if len(K) > 0 && r.Chance(80) { // sibling at the parent: K's node is not the root
+		j := append([]byte{}, K...)
+		j[len(j)-1]++
+		keys = append(keys, j)
+		if r.Chance(30) {
+			keys = append(keys, cat(j, []byte{pk()}))
+		}
+	}
+	if r.Chance(15) { // a second next byte below K: not the single-child shape
+		keys = append(keys, cat(K, []byte{sep[0] + 1}, []byte{pk()}))
+	}
+	for i := len(keys) - 1; i > 0; i-- {
+		j := r.Intn(i + 1)
+		keys[i], keys[j] = keys[j], keys[i]
+	}
+	g.out.P("begin 0")
+	g.cur = map[string]bool{}
+	for _, k := range keys {
+		g.out.P("ins %s %d", hx.Hex(k), r.Intn(1000))
+		g.cur[string(k)] = true
+	}
+	g.finish(0)
+	v := g.head
+	// handles from the committed tree
+	g.out.P("rootw v%s %s", v, g.handle())
+	g.out.P("get v%s %s %s", v, hx.Hex(K), g.handle())
+	g.out.P("get v%s %s %s", v, hx.Hex(absent), g.handle())
+	g.out.P("get v%s %s %s", v, hx.Hex(cat(K, sep)), g.handle())
+	g.out.P("get v%s %s %s", v, hx.Hex(below[0]), g.handle())
+	long := cat(below[len(below)-1], []byte{pk()})
+	for l := 0; l <= len(long); l++ {
+		if l == len(long) || l >= len(K)-1 || r.Chance(40) {
+			g.out.P("pfx v%s %s %s -", v, hx.Hex(long[:l]), g.handle())
+		}
+	}
+	g.out.P("pfx v%s %s %s -", v, hx.Hex(absent), g.handle())
+	g.out.P("chk")
+	// the txn: delete K, then write below it (and sometimes around it)
+	for round := 0; round < 1+r.Intn(2); round++ {
+		g.out.P("begin %s", g.head)
+		g.cur = cloneSet(g.vkeys[g.head])
+		if round > 0 || r.Chance(15) {
+			g.out.P("ins %s %d", hx.Hex(K), r.Intn(1000))
+			g.cur[string(K)] = true
+		}
+		if r.Chance(20) {
+			g.out.P("get t %s", hx.Hex(absent))
+		}
+		g.out.P("del %s", hx.Hex(K))
+		delete(g.cur, string(K))
+		for i, n := 0, r.Intn(4); i < n; i++ {
+			switch r.Intn(6) {
+			case 0, 1:
+				g.out.P("ins %s %d", hx.Hex(absent), r.Intn(1000))
+				g.cur[string(absent)] = true
+			case 2:
+				k := hx.Pick(r, below)
+				g.out.P("del %s", hx.Hex(k))
+				delete(g.cur, string(k))
+			case 3:
+				k := hx.Pick(r, below)
+				g.out.P("mod %s %d", hx.Hex(k), r.Intn(1000))
+				g.cur[string(k)] = true
+			case 4:
+				k := cat(K, sep)
+				g.out.P("ins %s %d %s", hx.Hex(k), r.Intn(1000), g.handle())
+				g.cur[string(k)] = true
+			default:
+				g.out.P("del %s", hx.Hex(absent))
+				delete(g.cur, string(absent))
+			}
+			if r.Chance(15) {
+				g.out.P("pfx t %s - -", hx.Hex(cat(K, sep)))
+			}
+		}
+		g.finish(10)
+		g.out.P("pers")
+	}
+}
+
 func (*eng) Gen(r *hx.Rand, n int, tier string, prop string, out *hx.Out) {
 	alphaSizes := []int{2, 3, 6, 20, 70, 256}
 	for c := 0; c < n; c++ {
@@ -373,6 +607,21 @@ func (*eng) Gen(r *hx.Rand, n int, tier string, prop string, out *hx.Out) {
 		ro := 0
 		if cr.Chance(25) {
 			ro = 1
+		}
+		switch c % 8 {
+		case 5:
+			out.P("#case g%d-deep", c)
+			out.P("new %d", ro)
+			g.deepCase()
+			continue
+		case 2, 7:
+			out.P("#case g%d-pk", c)
+			if cr.Chance(60) {
+				ro = 0
+			}
+			out.P("new %d", ro)
+			g.prefixKeyCase()
+			continue
 		}
 		out.P("#case g%d-a%d", c, as)
 		out.P("new %d", ro)
